@@ -13,16 +13,17 @@ XSD = M.XSD
 # lexical classes and their witnesses (mirrors LiteralTyping!Witness)
 WITNESS = {"word": "abc", "int": "57", "sint": "+8", "nint": "-30", "zeros": "007", "dec": "3.14", "exp": "1e3", "decexp": "1.5e1",
            "nan": "nan", "inf": "inf", "under": "1_000", "bool": "true", "empty": "", "http": "http://example.org/u0",
-           "urn": "urn:x:1", "date": "2020-01-02", "spaced": "a b", "langlike": "x@en", "hashy": "a#b", "dt_like": "v^^xsd:int"}
+           "urn": "urn:x:1", "date": "2020-01-02", "spaced": "a b", "langlike": "x@en", "hashy": "a#b", "dt_like": "v^^xsd:int",
+           "huge": "1e400", "multiline": "l1\nl2"}
 DECL_TYPE = {"plain": M.XSD_STRING, "lang": M.LANG_STRING, "integer": XSD + "integer", "decimal": XSD + "decimal", "double": XSD + "double",
              "float": XSD + "float", "boolean": XSD + "boolean", "date": XSD + "date", "anyURI": XSD + "anyURI", "custom": gen.DT_CUSTOM}
 # which lexical classes are legal lexical forms of which declared kind (mirrors LiteralTyping!WellTyped)
 WELL_TYPED = {"plain": list(WITNESS), "lang": list(WITNESS), "custom": list(WITNESS),
               "integer": ["int", "sint", "nint", "zeros"], "decimal": ["int", "sint", "nint", "zeros", "dec"],
-              "double": ["int", "sint", "nint", "zeros", "dec", "exp", "decexp"], "float": ["int", "dec", "exp", "decexp"],
+              "double": ["int", "sint", "nint", "zeros", "dec", "exp", "decexp", "huge"], "float": ["int", "dec", "exp", "decexp"],
               "boolean": ["bool"], "date": ["date"], "anyURI": ["http", "urn"]}
 # Turtle shorthand: an unquoted token stands for a typed literal
-SHORTHAND = {"integer": ["int", "sint", "nint", "zeros"], "decimal": ["dec"], "double": ["exp", "decexp"], "boolean": ["bool"]}
+SHORTHAND = {"integer": ["int", "sint", "nint", "zeros"], "decimal": ["dec"], "double": ["exp", "decexp", "huge"], "boolean": ["bool"]}
 LOCAL_TEXT = ["nt", "tsv_spo", "turtle_iter", "turtle", "n3", "xml", "json-ld"]
 
 
